@@ -3,6 +3,46 @@ R-FS, R-EXIT, R-ATOMIC, R-STDOUT, R-WORKERS, R-WALK."""
 from engine import Report
 
 
+def _output_closure(prog):
+    """the closure of `format` that drains the result channel (the output thread), whatever its number"""
+    c = getattr(prog, "_out_closure", False)
+    if c is False:
+        cands = [g for g in prog.fns("stylua") if g.kind == "Closure" and g.path.startswith("format::{closure") and
+                 g.path.count("::{closure") == 1 and
+                 any(re.search(r"crossbeam_channel::.*Receiver|channel::IntoIter<T> as std::iter::Iterator>::next", callee(t))
+                     for _, t in g.calls())]
+        c = cands[0] if len(cands) == 1 else None
+        try:
+            prog._out_closure = c
+        except AttributeError:
+            pass
+    return c
+
+
+def _is_output_closure(prog, f):
+    oc = _output_closure(prog)
+    return oc is not None and f is oc
+
+
+def _logger_closure(prog):
+    """the closure of `main` that formats log records (and raises the exit status on error records)"""
+    c = getattr(prog, "_log_closure", False)
+    if c is False:
+        cands = [g for g in prog.fns("stylua") if g.kind == "Closure" and g.path.startswith("main::{closure") and
+                 g.path.count("::{closure") == 1 and any(callee(t).endswith("Record::<'a>::level") for _, t in g.calls())]
+        c = cands[0] if len(cands) == 1 else None
+        try:
+            prog._log_closure = c
+        except AttributeError:
+            pass
+    return c
+
+
+def _is_logger_closure(prog, f):
+    lc = _logger_closure(prog)
+    return lc is not None and f is lc
+
+
 def _view(prog):
     from inline import crate_view, KNOWN_STYLUA
     return crate_view(prog, "stylua", KNOWN_STYLUA)
@@ -211,7 +251,7 @@ def rule_exit(ctx, prop):
         writers = []
         for f, bi, t, m, consts in uses:
             if m == "load":
-                ok = f.path in ("format", "format::{closure#0}")
+                ok = (f.path == "format" or _is_output_closure(prog, f))
                 rep.inst(f"{f.key} EXIT_CODE.load", {"fn": f.key, "at": f.loc(t["sp"])}, cfg, ok=ok)
                 if not ok:
                     rep.violation(f"{f.key} unexpected-EXIT_CODE-reader", f"EXIT_CODE is read in {f.key}",
@@ -221,16 +261,16 @@ def rule_exit(ctx, prop):
         for f, bi, t, m, consts in writers:
             val = consts[0] if consts else None
             in_err_arm = False
-            if f.path == "format::{closure#0}" and val == 2:
+            if _is_output_closure(prog, f) and val == 2:
                 in_err_arm = guarded_by_variant(f, bi, "result::Result", "Err")
-            where_ok = (f.path == "format::{closure#0}" and val == 1) or (f.path == "main::{closure#0}" and val == 2) \
+            where_ok = (_is_output_closure(prog, f) and val == 1) or (_is_logger_closure(prog, f) and val == 2) \
                 or in_err_arm
             rep.inst(f"{f.key} EXIT_CODE.{m}({val})", {"fn": f.key, "at": f.loc(t["sp"])}, cfg, ok=where_ok)
             if not where_ok:
                 rep.violation(f"{f.key} unexpected-EXIT_CODE-writer {m}({val})",
                               f"EXIT_CODE.{m}({val}) in {f.key}: only the diff handler may raise it to 1; only the logger "
                               f"and the Err arm of the output thread may raise it to 2", f.loc(t["sp"]), cfg)
-            if f.path == "format::{closure#0}" and val != 2:
+            if _is_output_closure(prog, f) and val != 2:
                 # must be inside the Diff arm
                 dom = False
                 for sb in f.dominators().get(bi, ()):
@@ -242,7 +282,7 @@ def rule_exit(ctx, prop):
                 if not dom:
                     rep.violation(f"{f.key} status-1-outside-Diff-arm",
                                   "EXIT_CODE is raised to 1 outside the FormatResult::Diff arm", f.loc(t["sp"]), cfg)
-            if f.path == "main::{closure#0}":
+            if _is_logger_closure(prog, f):
                 dom = False
                 for sb in f.dominators().get(bi, ()):
                     si = switch_info(f, sb)
@@ -254,8 +294,8 @@ def rule_exit(ctx, prop):
                     rep.violation(f"{f.key} status-2-not-guarded-by-Level::Error",
                                   "the logger's EXIT_CODE.store(2) is not exactly under `Level::Error`",
                                   f.loc(t["sp"]), cfg)
-        have1 = any(f.path == "format::{closure#0}" and (c[:1] == [1]) for f, _, _, _, c in writers)
-        have2 = any(f.path == "main::{closure#0}" and (c[:1] == [2]) for f, _, _, _, c in writers)
+        have1 = any(_is_output_closure(prog, f) and (c[:1] == [1]) for f, _, _, _, c in writers)
+        have2 = any(_is_logger_closure(prog, f) and (c[:1] == [2]) for f, _, _, _, c in writers)
         rep.inst("stylua diff-raises-status-to-1", None, cfg, ok=have1)
         rep.inst("stylua logger-raises-status-to-2", None, cfg, ok=have2)
         if not have1:
@@ -458,13 +498,13 @@ def rule_stdout(ctx, prop, stdin_clause=False):
                                   "a println!/print! that is not under `output_format == Summary`: stdout would carry "
                                   "more than the formatted text / diffs", f.loc(t["sp"]), cfg)
             else:
-                ok = f.path == "format::{closure#0}"
+                ok = _is_output_closure(prog, f)
                 rep.inst(f"{f.key} stdout()", {"fn": f.key, "at": f.loc(t["sp"])}, cfg, ok=ok)
                 if not ok:
                     rep.violation(f"{f.key} unexpected-stdout-handle", "stdout() obtained outside the output thread",
                                   f.loc(t["sp"]), cfg)
         # write_all on stdout in the output closure: payload provenance
-        oc = prog.fn("stylua", "format::{closure#0}")
+        oc = _output_closure(prog)
         if not rep.anchor(oc is not None, "output closure format::{closure#0}", cfg):
             continue
         writes = [(b, t) for b, t in oc.calls() if re.search(r"Stdout(Lock)?.* as std::io::Write>::", callee(t))]
@@ -595,7 +635,7 @@ def rule_workers(ctx, prop):
                 if not (r[0] == "agg" and r[1].startswith("closure ")):
                     continue
                 cl = prog.fn("stylua", r[1][len("closure "):])
-                if cl is None or cl.path == "format::{closure#0}":
+                if cl is None or _is_output_closure(prog, cl):
                     continue
                 n += 1
                 sends = [(bb, tt) for bb, tt in cl.calls() if re.search(r"crossbeam_channel::Sender::<T>::send$", callee(tt))]
@@ -618,7 +658,7 @@ def rule_workers(ctx, prop):
                                         "<std::io::Stdin as std::io::Read>::read_to_string"})
                     rep.inst(f"{cl.key} sends format result", {"roots": sorted(calls)[:5]}, cfg, ok=okv)
         rep.floor("worker closures", n, 2, cfg)
-        oc = prog.fn("stylua", "format::{closure#0}")
+        oc = _output_closure(prog)
         if rep.anchor(oc is not None, "output closure", cfg):
             # the loop header = block calling Iterator::next on the receiver; every return is reached only via
             # the None edge of that next()
@@ -885,7 +925,7 @@ def rule_err_status(ctx, prop):
                                       "(through error!, whose logger stores 2, or by writing EXIT_CODE directly)")
     for cfg, prog in ctx.programs.items():
         prog = _view(prog)
-        oc = prog.fn("stylua", "format::{closure#0}")
+        oc = _output_closure(prog)
         if not rep.anchor(oc is not None, "output closure format::{closure#0}", cfg):
             continue
         nexts = [b for b, t in oc.calls() if re.search(r"crossbeam_channel::IntoIter<T> as std::iter::Iterator>::next$", callee(t))]
